@@ -329,6 +329,16 @@ pub fn gen_plan(r: &mut Rng, toks: &[String], allow_special: bool, next_probe: &
             }
         }
     }
+    // a block alternate with code, then `empty_block_alt` on the same construct: the second call withdraws the code
+    if allow_special && r.chance(1, 10) {
+        let openers: Vec<usize> = (0..n).filter(|i| is_block_style(&toks[*i])).collect();
+        if !openers.is_empty() {
+            let x = *r.pick(&openers);
+            let p = probes(r, next_probe);
+            plan.push(Step::At { idx: x, mode: 6, probes: p });
+            plan.push(Step::EmptyBlockAlt { idx: x });
+        }
+    }
     // plain `after` code on an opener and a block-entry probe with the *same body* on that opener: both stand behind the opener, and
     // neither may absorb the other
     if allow_special && r.chance(1, 8) {
@@ -972,6 +982,19 @@ pub fn run(ctx: &mut Ctx) {
                             for p in probes {
                                 if !out.contains(&format!("i32.const:{p}")) {
                                     fails.push(("C17,C22", format!("func_{}-{}-lost", if *exit { "exit" } else { "entry" }, path), format!("probe {p} is not in the output")));
+                                }
+                            }
+                        }
+                    }
+                    // C21: `empty_block_alt` asks for removal without replacement: block-alternate code recorded on the construct before
+                    // that call must not be emitted
+                    for (pos, st) in plan.iter().enumerate() {
+                        if let Step::At { idx, mode: 6, probes } | Step::InjectAt { idx, mode: 6, probes } | Step::AddAt { idx, mode: 6, probes } = st {
+                            if is_block_style(&toks[*idx]) && plan[pos + 1..].iter().any(|x| matches!(x, Step::EmptyBlockAlt { idx: j } if j == idx)) {
+                                for p in probes {
+                                    if out.contains(&format!("i32.const:{p}")) {
+                                        fails.push(("C21".into(), "block_alt-code-emitted-after-empty_block_alt".into(), format!("probe {p} recorded at {idx} ({}) before empty_block_alt", toks[*idx])));
+                                    }
                                 }
                             }
                         }
